@@ -20,8 +20,8 @@ CLAIMED = {
         note="Assumes as C01/C15. LData.Pack's post-condition restates the additional-info length octet but not the info bytes (those are Info.Pack's contract; the quantified restatement did not discharge). LData.Pack obligations need up to ~60 s each on z3 5.1 (timeout 150 s in the contract). The message-code octet is written by cemi.Pack (inline dispatcher) and covered by C15/C02 only.",
         ref="§3 C11"),
     "C02": dict(
-        text="Proof, by generated round-trip lemmas verified against the real encoder and decoder bodies ('exact' mode: AllocAndPack, knxnet.Unpack, cemi.Pack/Unpack and every Pack/Unpack below them are inlined; solver-aided pruning of infeasible decoder paths): for ConnReq, ConnStateReq/Res, DiscReq/Res, TunnelRes, SearchReq, DescriptionReq and for TunnelReq and RoutingInd carrying each of L_Data.req/con/ind (application and control transport units), L_Raw.req/con/ind, L_Busmon.ind and unsupported codes, with every field symbolic (additional info 0..255 bytes, payload 1..255 bytes, all 8/16-bit fields): Unpack(AllocAndPack(v)) succeeds, consumes the whole encoding, yields the same service type and message code and equal fields. ConnRes: channel, status and (status 0) control. Decode/re-encode/decode stability for the eight flat service types.",
-        note="Assumes as C01/C15. SearchRes/DescriptionRes are NOT covered deductively (friendly name passes through the charmap codec, an assumed contract without an inverse): a BOUNDED stand-in executes their round trip on the real code for names of every length 0..29, 0..20 families (not exhaustive). Not covered: decode-re-encode stability of the cEMI carriers. ConnRes: the decoder does not read the 4-byte connection response data block, so the lemma states only the fields it reads. Payload length 255 rather than 254 is allowed by the lemma precondition (the code accepts it).",
+        text="Proof, by generated round-trip lemmas verified against the real encoder and decoder bodies ('exact' mode: AllocAndPack, knxnet.Unpack, cemi.Pack/Unpack and every Pack/Unpack below them are inlined; solver-aided pruning of infeasible decoder paths): for ConnReq, ConnStateReq/Res, DiscReq/Res, TunnelRes, SearchReq, DescriptionReq and for TunnelReq and RoutingInd carrying each of L_Data.req/con/ind (application and control transport units), L_Raw.req/con/ind, L_Busmon.ind and unsupported codes, with every field symbolic (additional info 0..255 bytes, payload 1..255 bytes, all 8/16-bit fields): Unpack(AllocAndPack(v)) succeeds, consumes the whole encoding, yields the same service type and message code and equal fields. ConnRes: channel, status and (status 0) control. Decode/re-encode/decode stability (any accepted byte string whose reserved bits are zero: an unnumbered transport unit carries sequence number 0) for the eight flat service types and for TunnelReq/RoutingInd carrying every cEMI kind (22 further lemmas).",
+        note="Assumes as C01/C15. SearchRes/DescriptionRes are NOT covered deductively (friendly name passes through the charmap codec, an assumed contract without an inverse): a BOUNDED stand-in executes their round trip on the real code for names of every length 0..29, 0..20 families (not exhaustive). ConnRes: the decoder does not read the 4-byte connection response data block, so the lemma states only the fields it reads. Payload length 255 rather than 254 is allowed by the lemma precondition (the code accepts it).",
         ref="§3 C02"),
     "C06": dict(
         text="Proof, by one generated lemma per registered type (152 types; statement taken from the property: Unpack(b) ok ==> Unpack(Pack(v)) ok with the same value, plus byte identity of the re-encoding for the exact integer, bit-field, enumeration, character and IEEE formats), verified against the real Pack/Unpack bodies ('exact' mode) for every payload of every length. For the 20 two-octet float types 9.xxx the round trip is decided by exhaustive execution of the real code over all 65,536 payloads of each type (complete, labelled bounded stand-in; per-exponent deductive slices of the codec run in the thorough tier). For 16.000/16.001 only a BOUNDED stand-in exists.",
